@@ -173,14 +173,15 @@ Qed.
 
 Theorem run_refines : forall ops s m,
   R s m ->
-  R (fst (mrun s ops)) (fst (srun (ssize s) m ops)) /\ snd (mrun s ops) = snd (srun (ssize s) m ops).
+  R (fst (mrun s ops)) (fst (srun (ssize s) m ops)) /\ snd (mrun s ops) = snd (srun (ssize s) m ops) /\
+  ssize (fst (mrun s ops)) = ssize s.
 Proof.
   induction ops as [|o ops IH]; intros s m HR; cbn [mrun srun]; [auto|].
   destruct (step_refines s m o HR) as (HR1 & Hobs & Hsz).
   destruct (mstep s o) as [s1 r1]. destruct (sstep (ssize s) m o) as [m1 r1']. cbn [fst snd] in *.
   specialize (IH s1 m1 HR1). rewrite Hsz in IH.
   destruct (mrun s1 ops) as [s2 rs]. destruct (srun (ssize s) m1 ops) as [m2 rs']. cbn [fst snd] in *.
-  destruct IH as [A B]. split; [exact A|]. now rewrite Hobs, B.
+  destruct IH as (A & B & C). split; [exact A|]. split; [now rewrite Hobs, B|exact C].
 Qed.
 
 Lemma R_empty size : R (empty_store size) (fun _ => None).
